@@ -13,12 +13,27 @@ import (
 
 var c04ErrFn = errors.New("c04: fn error")
 
-//verif:entry tier=quick,thorough steps=3000000 preempt=1 cover=completed,timeout,canceled,panicked,blocked
-//verif:doc fx.DoWithTimeout: timeout 1 s, optional parent context (cancelled at an arbitrary point, or with a 0.25 s / 2 s deadline); fn yields then returns nil, an error, panics or blocks forever; timers fire at any scheduling point; schedules with at most 1 preemption.
+type c04LateCtx struct {
+	deadline time.Time
+	done     chan struct{}
+}
+
+func (c *c04LateCtx) Deadline() (time.Time, bool) { return c.deadline, true }
+func (c *c04LateCtx) Done() <-chan struct{}       { return c.done }
+func (c *c04LateCtx) Err() error                  { return nil }
+func (c *c04LateCtx) Value(key any) any           { return nil }
+
+//verif:entry tier=quick,thorough steps=3000000 preempt=1 cover=completed,timeout,canceled,panicked,blocked,latedeadline
+//verif:doc fx.DoWithTimeout: timeout 1 s, optional parent context (cancelled at an arbitrary point, with a 0.25 s / 2 s deadline, or one that only announces a 2 s deadline and never ends by itself); fn yields then returns nil, an error, panics or blocks forever; timers fire at any scheduling point; schedules with at most 1 preemption.
 func Verif_C04_Fx() {
 	var opts []DoOption
-	callerKind := rt.Choose("caller", 3)
+	callerKind := rt.Choose("caller", 4)
 	switch callerKind {
+	case 3:
+		// a caller context that announces a deadline later than the timeout but never ends by itself: the
+		// call must still end at its own timeout (a deadlock here means the timeout was not applied)
+		opts = append(opts, WithContext(&c04LateCtx{deadline: time.Now().Add(2 * time.Second), done: make(chan struct{})}))
+		rt.Cover("latedeadline")
 	case 1:
 		c, cancel := context.WithCancel(context.Background())
 		opts = append(opts, WithContext(c))
